@@ -644,9 +644,13 @@ impl Val {
                     match param {
                         Val::Number(p) => {
                             let err = || ValError::InvalidStringToIntegerRadix(param.clone());
-                            let radix = Self::try_to_integer(p, err)?
+                            let radix: u32 = Self::try_to_integer(p, err)?
                                 .try_into()
                                 .map_err(|_| err())?;
+                            if !(2..=36).contains(&radix) {
+                                // from_str_radix panics outside this range
+                                return Err(err());
+                            }
                             let n = i64::from_str_radix(s, radix).map_err(|_| err())?;
                             *self = Val::Number(n as f64);
                             Ok(())
